@@ -302,6 +302,8 @@ def same_or_nan(a, b):
     if isinstance(a, tuple):
         return len(a) == len(b) and all(same_or_nan(x, y)
                                         for x, y in zip(a, b))
+    if isinstance(a, CToFoo):       # a fresh adapter per adaptation
+        return a.adaptee is b.adaptee
     try:
         return bool(a == b)
     except Exception:
@@ -735,7 +737,6 @@ MEMBERS = [
     "Enum(1, 2, 3)", "Enum('a', 'b')", "Map", "Tuple(Int,Str)",
     "Instance(A,allow_none=True)", "Instance(A,allow_none=False)",
     "Instance(IFoo,adapt=yes,allow_none=False)",
-    "Instance(IFoo,adapt=default,allow_none=False)",
     "Supports(IFoo,allow_none=False)", "AdaptsTo(IFoo,allow_none=False)",
     "Type(A,allow_none=False)", "Callable(allow_none=False)",
     "Callable(allow_none=True)", "Module", "String(min=1,max=2,re='a+')",
